@@ -5,16 +5,22 @@ fails on both or succeeds on both with equivalent states and the same returned v
 import OsmoVerif.Proofs.LockupGenesisSim
 namespace OsmoVerif.Lockup
 
+theorem createLockNoSend_sim {s1 t1 : State} (h1 : Sim s1 t1) (o : Addr) (c : Coins) (d : Int) :
+    SimO (createLockNoSend s1 o c d) (createLockNoSend t1 o c d) := by
+  unfold createLockNoSend
+  simp only [Option.bind_eq_bind]
+  rw [h1.last]
+  apply ORel.bind (addLockRefs_sim (lockInternal_sim h1 _ _) _)
+  intro s3 t3 h3
+  exact ⟨⟨h3.bal, h3.modBal, rfl, h3.allowed, h3.nodup, h3.locks, h3.refs, h3.accum⟩, rfl⟩
+
 theorem createLock_sim {s t : State} (h : Sim s t) (o : Addr) (c : Coins) (d : Int) :
     SimO (createLock s o c d) (createLock t o c d) := by
   unfold createLock
   simp only [Option.bind_eq_bind]
   apply ORel.bind (sendToModule_sim h o c)
   intro s1 t1 h1
-  rw [h1.last]
-  apply ORel.bind (addLockRefs_sim (lockInternal_sim h1 _ _) _)
-  intro s3 t3 h3
-  exact ⟨⟨h3.bal, h3.modBal, rfl, h3.allowed, h3.nodup, h3.locks, h3.refs, h3.accum⟩, rfl⟩
+  exact createLockNoSend_sim h1 o c d
 
 theorem addTokensToLockByID_sim {s t : State} (h : Sim s t) (id : Nat) (o : Addr) (dn : Denom) (a : Int) :
     SimS (addTokensToLockByID s id o dn a) (addTokensToLockByID t id o dn a) := by
@@ -137,10 +143,12 @@ theorem unlockInternal_sim {s t : State} (h : Sim s t) (l : Lock) :
     SimS (unlockInternal s l) (unlockInternal t l) := by
   unfold unlockInternal
   simp only [Option.bind_eq_bind]
+  apply ORel.bind (R := Sim) (burnCLShares_sim h _)
+  intro s0 t0 h0
   apply ORel.bind (R := Sim)
   · split
-    · exact h
-    · exact sendFromModule_sim h _ _
+    · exact h0
+    · exact sendFromModule_sim h0 _ _
   · intro s1 t1 h1
     exact accDecreaseCoins_sim (deleteLockRefs_sim (deleteLock_sim h1 _) _ _) _ _
 
@@ -289,6 +297,22 @@ theorem addToLockGuarded_sim {s t : State} (h : Sim s t) (id : Nat) (o : Addr) (
     · trivial
     · exact addTokensToLockByID_sim h _ _ _ _
 
+theorem clLock_sim {s t : State} (h : Sim s t) (tm : Int) (o : Addr) (dn : Denom) (a d : Int) (u : Bool) :
+    SimO (clLock tm s o dn a d u) (clLock tm t o dn a d u) := by
+  unfold clLock
+  split
+  · trivial
+  · split
+    · trivial
+    · apply ORel.bind (mintCoinToModule_sim h dn a)
+      intro s1 t1 h1
+      apply ORel.bind (createLockNoSend_sim h1 o [(dn, a)] d)
+      intro p q hpq
+      obtain ⟨hs2, hid⟩ := hpq
+      split
+      · rw [hid]; exact beginUnlock_sim hs2 tm _ _
+      · exact ⟨hs2, hid⟩
+
 /-- every operation: both fail, or both succeed with equivalent states and the same returned lock id. -/
 theorem applyOp_sim {s t : State} (h : Sim s t) (tm : Int) (op : Op) : SimO (applyOp tm s op) (applyOp tm t op) := by
   cases op with
@@ -301,6 +325,7 @@ theorem applyOp_sim {s t : State} (h : Sim s t) (tm : Int) (op : Op) : SimO (app
   | withdrawMatured n => exact ORel.map (withdrawMaturedLocks_sim h tm n) (fun _ _ hx => ⟨hx, rfl⟩)
   | setRewardReceiver o id r => exact ORel.map (setRewardReceiver_sim h id o r) (fun _ _ hx => ⟨hx, rfl⟩)
   | forceUnlock o id c => exact ORel.map (msgForceUnlock_sim h tm o id c) (fun _ _ hx => ⟨hx, rfl⟩)
+  | clLock o dn a d u => exact clLock_sim h tm o dn a d u
 
 theorem step_sim {s t : State} (h : Sim s t) (tm : Int) (op : Op) :
     Sim (step tm s op).1 (step tm t op).1 ∧ (step tm s op).2 = (step tm t op).2 := by
